@@ -2010,6 +2010,9 @@ impl EGraph {
         }
 
         self.backend.flush_updates();
+        self.backend
+            .take_panic()
+            .map_err(|e| Error::BackendError(e.to_string()))?;
 
         log::info!("Read {num_facts} facts into {func_name} from '{file}'.");
         Ok(())
@@ -2378,6 +2381,12 @@ impl EGraph {
     ///    stages nothing, so the flush is skipped entirely — a read
     ///    costs no more than a direct backend scan.
     ///
+    /// # Errors
+    ///
+    /// Besides the error `f` returns, a panic raised while the writes
+    /// are flushed (conflicting values for a `:no-merge` function) or
+    /// by [`Write::panic`] inside `f` is returned as an error.
+    ///
     /// # Example
     /// ```
     /// use egglog::prelude::*;
@@ -2422,7 +2431,16 @@ impl EGraph {
         if changed {
             self.backend.flush_updates();
         }
-        result
+        // A merge function run by the flush, or `Write::panic` in the closure,
+        // may have panicked. Report it from here: left behind, the message
+        // would fail the next run instead, even one made after a `pop`.
+        let panicked = self
+            .backend
+            .take_panic()
+            .map_err(|e| Error::BackendError(e.to_string()));
+        let value = result?;
+        panicked?;
+        Ok(value)
     }
 
     /// Run a pattern query: bind the variables in `vars` against
